@@ -38,7 +38,9 @@ func init() {
 
 var c15Placements = []string{"direct", "grouping-local", "grouping-other-module", "grouping-in-augment", "augment-other-module", "typedef-other-module",
 	// statements written in one module that land on a node defined in another one
-	"when-on-uses-of-foreign-grouping", "must-by-refine-of-foreign-grouping", "when-on-augment-of-other-module", "must-by-deviate-add-from-other-module"}
+	"when-on-uses-of-foreign-grouping", "must-by-refine-of-foreign-grouping", "when-on-augment-of-other-module", "must-by-deviate-add-from-other-module",
+	// the same expression text written twice: in a grouping of the defining module and directly in the module that uses that grouping
+	"grouping-other-module-plus-own-copy"}
 var c15Stmts = []string{"must", "when", "path"}
 var c15PrefixUses = []string{"none", "own", "imported-by-definer-only", "imported-by-user-only", "same-prefix-different-modules", "undeclared"}
 
@@ -80,6 +82,8 @@ type c15Case struct {
 	prefix                     string
 	unasserted                 bool
 	leafPath                   []string // schema path to the carrying leaf in the compiled tree
+	twoCopies                  bool     // a second carrier ("carrier2") holds the same text, written in the using module
+	expectNS2                  string   // namespace the prefix denotes there
 }
 
 const (
@@ -178,6 +182,17 @@ func c15Build(placement, stmt, pu string, ex c15Expr, custom string) *c15Case {
 		c.expectAccept = false
 	}
 	c.prefix = strings.TrimSuffix(p, ":")
+	if placement == "grouping-other-module-plus-own-copy" {
+		// the copy written in the using module resolves the prefix through that module's imports
+		switch pu {
+		case "own":
+			c.expectNS2 = nsDef // "d" is also the prefix under which the using module imports the defining one
+		case "imported-by-definer-only":
+			c.expectAccept = false // the using module does not know the prefix
+		case "same-prefix-different-modules":
+			c.expectNS2 = nsY
+		}
+	}
 	if custom != "" {
 		c.exprText = strings.ReplaceAll(custom, "§", p)
 	} else if stmt == "path" {
@@ -210,6 +225,18 @@ func c15Build(placement, stmt, pu string, ex c15Expr, custom string) *c15Case {
 		def.Add(yang.S("grouping", "g", leaf))
 		imp(use, "c15-def", "d")
 		useTop.Add(yang.S("uses", "d:g"))
+	case "grouping-other-module-plus-own-copy":
+		def.Add(yang.S("grouping", "g", leaf))
+		imp(use, "c15-def", "d")
+		own := leaf.Clone()
+		own.Arg = "carrier2"
+		// either order: the copy before or after the uses
+		if len(c.exprText)%2 == 0 {
+			useTop.Add(yang.S("uses", "d:g"), own)
+		} else {
+			useTop.Add(own, yang.S("uses", "d:g"))
+		}
+		c.twoCopies = true
 	case "grouping-in-augment":
 		def.Add(yang.S("grouping", "g", leaf))
 		aug := yang.S("module", "c15-aug", yang.S("namespace", nsAug), yang.S("prefix", "a"), yang.S("import", "c15-def", yang.S("prefix", "dd")),
@@ -313,6 +340,9 @@ func (p *c15) gen(tier string, seed int64, idx int) *c15Case {
 		if hasPrefixed && (pu == "imported-by-user-only" || pu == "undeclared") {
 			c.expectAccept = false
 		}
+		if hasPrefixed && pl == "grouping-other-module-plus-own-copy" && pu == "imported-by-definer-only" {
+			c.expectAccept = false // the copy written in the using module cannot resolve the prefix
+		}
 		if !hasPrefixed {
 			c.expectNS = ""
 		}
@@ -370,16 +400,29 @@ func (p *c15) Run(tier string, seed int64, idx int) core.CaseResult {
 		}
 		return res
 	}
-	// accepted: inspect the compiled machine
+	// accepted: inspect the compiled machine(s)
+	p.checkMachine(c, cr, c.leafPath, c.expectNS, cls, input, &res)
+	if c.twoCopies {
+		p2 := append(append([]string{}, c.leafPath[:len(c.leafPath)-1]...), "carrier2")
+		p.checkMachine(c, cr, p2, c.expectNS2, cls+"/own-copy", input, &res)
+	}
+	if idx%97 == 0 {
+		res.Sample = map[string]interface{}{"placement": c.placement, "stmt": c.stmt, "prefix_use": c.prefixUse, "expr": c.exprText, "accepted": cr.Accepted()}
+	}
+	return res
+}
+
+func (p *c15) checkMachine(c *c15Case, cr compileResult, leafPath []string, expectNS, cls, input string, resp *core.CaseResult) {
+	res := resp
 	var node schema.Node = cr.MS
 	pan, msg, _ := core.Guard(func() {
-		for _, step := range c.leafPath {
+		for _, step := range leafPath {
 			node = node.Child(step)
 		}
 	})
 	if pan || node == nil {
 		res.Fail("C15/carrier-not-found", input, msg)
-		return res
+		return
 	}
 	listing, gotExpr := "", ""
 	pan, msg, _ = core.Guard(func() {
@@ -397,13 +440,13 @@ func (p *c15) Run(tier string, seed int64, idx int) core.CaseResult {
 	})
 	if pan {
 		res.Fail("C15/machine-missing/"+cls, input, "no compiled machine on the node: "+msg)
-		return res
+		return
 	}
 	if gotExpr != c.exprText {
 		res.Fail("C15/machine-has-other-expression/"+cls, input, fmt.Sprintf("GetExpr()=%q", gotExpr))
 	}
 	res.Ev("accepted_sets_with_namespace_check", 1)
-	if c.prefix != "" && c.expectNS != "" {
+	if c.prefix != "" && expectNS != "" {
 		// every step written with the prefix must carry the namespace it denotes where the statement is written
 		// (the same local name may also occur unprefixed, so compare per name how many steps carry which namespace)
 		prefixed := map[string]int{}
@@ -416,7 +459,7 @@ func (p *c15) Run(tier string, seed int64, idx int) core.CaseResult {
 		}
 		withNS, otherNS := map[string]int{}, map[string]int{}
 		for _, m := range namePushRe.FindAllStringSubmatch(listing, -1) {
-			if m[1] == c.expectNS {
+			if m[1] == expectNS {
 				withNS[m[2]]++
 			} else {
 				otherNS[m[2]]++
@@ -426,15 +469,11 @@ func (p *c15) Run(tier string, seed int64, idx int) core.CaseResult {
 			res.Ev("prefixed_steps_checked", int64(n))
 			if withNS[local] < n || otherNS[local] > unprefixed[local] {
 				res.Fail("C15/prefix-resolved-in-wrong-scope/"+cls, input, fmt.Sprintf("%d step(s) written %s:%s, %d carry the namespace %q the prefix denotes in the module where the statement is written and %d another one (%d unprefixed occurrences of the name)\n%s",
-					n, c.prefix, local, withNS[local], c.expectNS, otherNS[local], unprefixed[local], listing))
+					n, c.prefix, local, withNS[local], expectNS, otherNS[local], unprefixed[local], listing))
 				break
 			}
 		}
 	}
-	if idx%97 == 0 {
-		res.Sample = map[string]interface{}{"placement": c.placement, "stmt": c.stmt, "prefix_use": c.prefixUse, "expr": c.exprText, "accepted": cr.Accepted()}
-	}
-	return res
 }
 
 func (p *c15) Witness(raw json.RawMessage) []core.Failure { return nil }
